@@ -537,9 +537,38 @@ func (p c09) pass(c *core.C, cs c09Pass) {
 		return o
 	}
 	wantOrder = strip(wantOrder, out.Lines)
-	if !eqLines(out.Order, wantOrder) {
-		c.Failf("pass-through order: got %q, want %q\noriginal: %q\nchanges: %v\nwritten: %q", out.Order, wantOrder, text, cs.Set, buf.String())
+	// what the statement fixes: the SET of fields written, and the relative order of the fields the struct does not
+	// know ("re-emitted unchanged in their original order"); where the known fields go among them is the writer's choice
+	sameSet := len(out.Order) == len(wantOrder)
+	if sameSet {
+		w := map[string]int{}
+		for _, k := range wantOrder {
+			w[k]++
+		}
+		for _, k := range out.Order {
+			w[k]--
+		}
+		for _, n := range w {
+			if n != 0 {
+				sameSet = false
+			}
+		}
+	}
+	unknownOf := func(order []string) []string {
+		var o []string
+		for _, k := range order {
+			if !isKnown[k] {
+				o = append(o, k)
+			}
+		}
+		return o
+	}
+	if !sameSet || !eqLines(unknownOf(out.Order), unknownOf(wantOrder)) {
+		c.Failf("pass-through: fields written %q; expected the fields %q with the unknown ones in their original order\noriginal: %q\nchanges: %v\nwritten: %q", out.Order, wantOrder, text, cs.Set, buf.String())
 		return
+	}
+	if eqLines(out.Order, wantOrder) {
+		c.Cover("pass:known-fields-keep-their-slot") // evidence only
 	}
 	for _, k := range wantOrder {
 		if isKnown[k] {
